@@ -27,7 +27,7 @@ func TestVerif_C18_finish(t *testing.T) {
 		"both finishing sites of the real code in-package on one fresh response — site c: (*Client).roundTrip over a scripted http.RoundTripper (plain call / every retry attempt / end of a redirect chain), site d: the closure of handleDigestAuthFunc handed a 401 Digest challenge, its re-send answered by a scripted transport — x {no output, SetOutput writer accepting, SetOutput writer failing} x auto-read on/off x target matrix {success target} x {request-level error target} x {client-level common error type} x status (boundary set + uniform 100..599) x content type pool x body pool (well/ill-formed json and xml, type errors, binary) x read failure (without output); observed: the error the site ends with (resp.Err after roundTrip / the value the middleware returns), resp.Err, result and error slots (which object), body cached, output written; compared with the model's finish (one function, Site.combine) and with an independent oracle: a binding failure or a saving failure is never lost, nothing is bound after a failure, a request-level target beats the common type, the digest tail does not save after a binding failure; non-trivial = a target was selected or an output set")
 	r := s.Rand()
 	hist := newC18Hist(s)
-	n := verifh.N(6000, 80000)
+	n := verifh.N(20000, 250000)
 	for k := 0; k < n; k++ {
 		site := "c"
 		if k%2 == 1 {
